@@ -1446,6 +1446,16 @@ package server
 //@   ensures C09.pop.refused: implies(!isnil(result), cursor.seq == old(cursor.seq))
 //@   modifies ReplicationBufferQueueCursor.*, E_byte
 
+// C09: a full transfer that does not complete leaves no position behind: the follower has already reset its log and its databases,
+// so the next attempt must start over (empty position, no resume marker) instead of resuming at the transfer's end boundary behind
+// records it never received
+//@ func (*ReplicationClient).recvFiles
+//@   modifies all
+//@ func (*ReplicationClient).InitSync
+//@   requires self != nil
+//@   ensures C09.sync.incomplete-restarts: implies(!isnil(result) && calls(recvFiles) == 1 && !self.recvedFiles, self.aofLock == nil && forall(k, 0, 16, self.currentAofId[k] == 0))
+//@   modifies all
+
 // C09: a follower that is told its position is unknown to the leader asks again as an EMPTY follower: no position, no
 // resume marker (aofLock) and no received-files mark, so that the answer is followed by a transfer from scratch
 //@ func (*ReplicationClient).sendSyncCommand
